@@ -15,11 +15,16 @@ import (
 	"encoding/hex"
 	"errors"
 	"fmt"
+	"hash/fnv"
 	"math"
 	"math/big"
 	"os"
 	"strconv"
+	"runtime"
 	"strings"
+	"sync"
+	"sync/atomic"
+	"time"
 
 	"github.com/ctessum/geom"
 	"github.com/ctessum/geom/encoding/wkt"
@@ -304,6 +309,45 @@ func gen(seed uint64, tier string) {
 		}
 		fmt.Fprintln(out)
 	}
+	// concurrent callers (generic probe (g)): wkt.Encode is a pure function; pooled / package-level scratch
+	// buffers are invisible to a sequential harness
+	ncc := 70
+	if tier == "thorough" {
+		ncc = 500
+	}
+	for i := 0; i < ncc; i++ {
+		var g geom.Geom
+		switch i % 7 {
+		case 0:
+			g = wide(r, 1+r.Intn(4), 0, []int{65, 129, 257}[r.Intn(3)])
+		case 1:
+			g = wide(r, 3+r.Intn(2), 1, []int{65, 129}[r.Intn(2)])
+		case 2:
+			g = cfg{}.geom(r, 5+r.Intn(3)) // unsupported: the error path
+		case 3:
+			g = cfg{big: true}.geom(r, 1+r.Intn(4))
+		default:
+			g = guarded.geom(r, r.Intn(5))
+		}
+		fmt.Fprintf(out, "cc %d %d %s\n", []int{20, 60, 200}[r.Intn(3)], r.Intn(1<<30), vproto.GeomToks(g))
+	}
+	// long histories (counters, caches that fill up): 300 calls on tiny geometries in one line
+	nlong := 2
+	if tier == "thorough" {
+		nlong = 12
+	}
+	for i := 0; i < nlong; i++ {
+		fmt.Fprintf(out, "batch 300")
+		for j := 0; j < 300; j++ {
+			a, b := float64(r.Range(-9, 9)), float64(j)
+			var g geom.Geom = geom.LineString{{X: a, Y: b}, {X: b, Y: a}}
+			if j%3 == 1 {
+				g = geom.Polygon{{{X: a, Y: b}, {X: b, Y: a}}, {{X: a, Y: a}}}
+			}
+			fmt.Fprintf(out, " %s", vproto.GeomToks(g))
+		}
+		fmt.Fprintln(out)
+	}
 	// cross-validation of the driver's exact decimal->binary64 conversion (spec-side component)
 	// against strconv.ParseFloat on literals that are NOT shortest renderings: random digit strings,
 	// exact midpoints between adjacent doubles (ties-to-even) and their neighbours
@@ -459,6 +503,138 @@ func errReport(err error, nbuf int) string {
 	return fmt.Sprintf("err other - x%s %d", hex.EncodeToString([]byte(err.Error())), nbuf)
 }
 
+// roomy rebuilds g so that every slice has cap = len+2 with junk elements beyond its length (a slice
+// header with spare capacity is what append-built geometries look like; code that reads up to cap, or
+// appends to a slice of its argument, then shows)
+func roomy(g geom.Geom) geom.Geom {
+	junk := geom.Point{X: 7777, Y: -7777}
+	pts := func(p []geom.Point) []geom.Point {
+		q := make([]geom.Point, len(p)+2)
+		copy(q, p)
+		q[len(p)], q[len(p)+1] = junk, junk
+		return q[:len(p)]
+	}
+	paths := func(p []geom.Path) []geom.Path {
+		q := make([]geom.Path, len(p)+2)
+		for i := range p {
+			q[i] = pts(p[i])
+		}
+		q[len(p)], q[len(p)+1] = geom.Path{junk}, geom.Path{junk, junk}
+		return q[:len(p)]
+	}
+	switch t := g.(type) {
+	case geom.LineString:
+		return geom.LineString(pts(t))
+	case geom.MultiPoint:
+		return geom.MultiPoint(pts(t))
+	case geom.MultiLineString:
+		q := make(geom.MultiLineString, len(t)+2)
+		for i := range t {
+			q[i] = pts(t[i])
+		}
+		q[len(t)], q[len(t)+1] = geom.LineString{junk}, geom.LineString{junk, junk}
+		return q[:len(t)]
+	case geom.Polygon:
+		return geom.Polygon(paths(t))
+	case geom.MultiPolygon:
+		q := make(geom.MultiPolygon, len(t)+2)
+		for i := range t {
+			q[i] = paths(t[i])
+		}
+		q[len(t)], q[len(t)+1] = geom.Polygon{{junk}}, geom.Polygon{{junk, junk}}
+		return q[:len(t)]
+	}
+	return g
+}
+
+// encAnswer: the result string of one Encode call (same format as an `enc` line's result)
+func encAnswer(g geom.Geom) (ans string) {
+	if pan := vproto.Safe(func() {
+		buf, err := wkt.Encode(g)
+		if err != nil {
+			ans = errReport(err, len(buf))
+		} else {
+			ans = "ok x" + hex.EncodeToString(buf)
+		}
+	}); pan != "" {
+		ans = "panic " + pan
+	}
+	return ans
+}
+
+// concurrent: wkt.Encode is a pure function of its argument.  The reference answer is computed alone; then
+// 8 goroutines repeat the same call on private deep copies while 8 others hammer Encode with unrelated large
+// geometries.  The first answer that is not byte-identical to the reference (or a modified argument) is
+// reported and judged by the Spec.
+func concurrent(rounds int, seed uint64, toks string) string {
+	parse := func() geom.Geom { return vproto.NewParser(toks).Geom() }
+	g0 := parse()
+	ref := encAnswer(g0)
+	before := vproto.GeomToks(g0)
+	var stop int32
+	var mu sync.Mutex
+	first := ""
+	report := func(s string) {
+		mu.Lock()
+		if first == "" {
+			first = s
+		}
+		mu.Unlock()
+		atomic.StoreInt32(&stop, 1)
+	}
+	var wg, nwg sync.WaitGroup
+	for w := 0; w < 8; w++ {
+		nwg.Add(1)
+		go func(w int) {
+			defer nwg.Done()
+			nr := vproto.NewRng(seed + uint64(w)*7919)
+			var ng geom.Geom
+			if w%2 == 0 {
+				ng = wide(nr, 1+nr.Intn(4), 0, 1025)
+			} else {
+				ng = wide(nr, 3+nr.Intn(2), 1, 257)
+			}
+			for atomic.LoadInt32(&stop) == 0 {
+				vproto.Safe(func() { wkt.Encode(ng) })
+			}
+		}(w)
+	}
+	for w := 0; w < 8; w++ {
+		wg.Add(1)
+		go func() {
+			defer wg.Done()
+			g := parse()
+			for i := 0; i < rounds && atomic.LoadInt32(&stop) == 0; i++ {
+				if a := encAnswer(g); a != ref {
+					report("differs " + a)
+					return
+				}
+				if vproto.GeomToks(g) != before {
+					report("argument-modified " + ref)
+					return
+				}
+			}
+		}()
+	}
+	wg.Wait()
+	atomic.StoreInt32(&stop, 1)
+	nwg.Wait()
+	// a goroutine the library itself spawned and that panics kills the process: let it do so while this line
+	// is still the current one (the orchestrator then records `crash` for THIS line)
+	runtime.Gosched()
+	time.Sleep(time.Millisecond)
+	if first != "" {
+		return first
+	}
+	return "same " + ref
+}
+
+var poison = geom.LineString{
+	{X: math.Copysign(0, -1), Y: math.Copysign(0, -1)}, {X: -math.MaxFloat64, Y: 5e-324},
+	{X: 0.30000000000000004, Y: -2.2250738585072014e-308}, {X: 123456789012345680000, Y: 9.999999999999999e-5},
+	{X: math.Copysign(0, -1), Y: math.Copysign(0, -1)},
+}
+
 func impl() {
 	vproto.Lines(func(line string, out *bufio.Writer) {
 		p := vproto.NewParser(line)
@@ -469,10 +645,24 @@ func impl() {
 			case "enc", "encp":
 				g := p.Geom()
 				renderings(g, &tab)
+				hl := fnv.New32a()
+				hl.Write([]byte(line))
+				if hl.Sum32()&2 == 2 {
+					g = roomy(g) // every slice has spare capacity holding junk beyond its length
+				}
 				before := vproto.GeomToks(g)
 				arg := g
 				if strings.HasPrefix(line, "encp ") {
 					arg = pointerTo(g) // *geom.Point, *geom.LineString, ...: geometry types Encode does not list
+				}
+				if h := fnv.New32a(); true {
+					// every other line (decided by the line itself, so that a replay does the same) starts from a
+					// "used" encoder: one call on a long geometry with -0 and extreme values precedes the call under
+					// test, so that state carried from one call to the next shows on a single replayable line
+					h.Write([]byte(line))
+					if h.Sum32()&1 == 1 {
+						wkt.Encode(poison)
+					}
 				}
 				buf, err := wkt.Encode(arg)
 				if err != nil {
@@ -483,6 +673,12 @@ func impl() {
 				if vproto.GeomToks(g) != before {
 					res = "inputmodified " + res
 				}
+			case "cc":
+				rounds := p.Int()
+				seed := uint64(p.Int())
+				toks := p.Rest()
+				renderings(vproto.NewParser(toks).Geom(), &tab)
+				res = concurrent(rounds, seed, toks)
 			case "batch":
 				n := p.Int()
 				kept := make([][]byte, n)   // the slices exactly as Encode returned them
